@@ -586,6 +586,17 @@ impl Work {
                 let mut rng = Rng::derive(ctx.seed, 0x4e9, i as u64);
                 let luau = rng.chance(1, 3);
                 let prog = crate::props::c12::program(&mut rng, luau);
+                // an inline comment in front of a member is printed on its own line, and a line of its
+                // own between two members separates groups on the next pass, which can order them
+                // differently (outside the region where idempotence holds, like the comment slots of
+                // DESIGN 11.2): this seeded family leaves those comments out
+                let prog: String = prog
+                    .split_inclusive('\n')
+                    .map(|l| match (l.starts_with("--[[ about "), l.find("]] local")) {
+                        (true, Some(p)) => l[p + 3..].to_string(),
+                        _ => l.to_string(),
+                    })
+                    .collect();
                 let syntax: &'static str = if luau { "Luau" } else { rng.pick_s(&["Lua51", "All", "Lua54"]) };
                 let mut c = Cfg::random(&mut rng, syntax, fam.seeded_min_width);
                 c.sort_requires = true;
@@ -1118,6 +1129,28 @@ impl Work {
             "type E<T... = ...number> = nil",
             "type F<T...> = (T...) -> ...any",
         ];
+        // small programs under require sorting
+        let sorted_progs: [&str; 4] = [
+            "local z = require('z')\n--[[ about b ]] local b = require('b')\nlocal a = require('a')\n",
+            "--[[ lead ]] local b = require('b')\nlocal a = require('a')\n",
+            "local b = require('b') -- tb\nlocal a = require('a') --[[ ta ]]\n",
+            "local b = require('b');\nlocal a = require('a');\n",
+        ];
+        for (k, p) in sorted_progs.iter().enumerate() {
+            let mut c = Cfg::with_syntax("Lua51");
+            c.sort_requires = true;
+            f(
+                ctx,
+                &Eval {
+                    id: format!("tiny:sorted:{k}"),
+                    src: p.to_string(),
+                    cfg: c,
+                    range: None,
+                    pinned: true,
+                    presig: None,
+                },
+            );
+        }
         for (k, p) in progs.iter().enumerate() {
             for syntax in ["Lua51", "Luau", "All"] {
                 for le in ["Unix", "Windows"] {
